@@ -3,6 +3,8 @@ import XzVerif.Proofs.Tables
 import XzVerif.Proofs.Lzma1RoundTrip
 import XzVerif.Proofs.Writer1
 import XzVerif.Proofs.Writer1I
+import XzVerif.Proofs.LazyDec
+import XzVerif.Proofs.Fuel
 /-
   C06 — Classic .lzma round trip is lossless and the explicit-size contract is enforced.
 
@@ -173,5 +175,40 @@ theorem C06_close_and_roundtrip_bintree (c : W1.Cfg) (hc : W1.CfgOk c) (ps : Lis
         (Lzma1.read cfgCap o).consumed = o.size ∧ (Lzma1.read cfgCap o).marker = c.marker ∧
         (Lzma1.read cfgCap o).openError = false) :=
   W1.close_spec_I c hc BT.BT4 (BT.Synced c.w2) (BT.bt4_matcherInv c.w2) _ (BT.synced_new c.w2) ps cfgCap hcap
+
+/-! ### write → read with both sides at the level the code runs: the classic writer model and the LAZY classic reader -/
+
+open LazyDec in
+theorem lazy1_of_batch (cfgCap : Nat) (stream content : ByteArray)
+    (hst : (Lzma1.read (effCap cfgCap) stream).status = .eof) (hout : (Lzma1.read (effCap cfgCap) stream).out = content)
+    (hopen : (Lzma1.read (effCap cfgCap) stream).openError = false) (lens : List Nat) (hsum : content.size < lens.sum) :
+    ∃ l, newReader cfgCap stream = .ok l ∧ lastStat (readSeq l lens) = .eof ∧ delivered (readSeq l lens) = content := by
+  have hiff := LazyDec.newReader_ok_iff cfgCap stream
+  rw [hopen] at hiff
+  cases hn : newReader cfgCap stream with
+  | error e => rw [hn] at hiff; simp [Except.toOption] at hiff
+  | ok l =>
+    have heof := LazyDec.reaches_eof cfgCap stream l hn lens hst (by rw [hout]; exact hsum)
+    have hf := Fuel.lzma1_read_fuel (effCap cfgCap) stream
+    exact ⟨l, rfl, heof, by rw [(LazyDec.eof_complete cfgCap stream l hn lens hf heof).2, hout]⟩
+
+open LazyDec in
+/-- **The round trip with both sides as the code runs** (HashTable4 model): every valid classic configuration (all 225
+    property codes, any dictionary / look-ahead, the three end modes), every partition into Write calls whose accepted
+    bytes meet an announced size: the stream Close emits is opened by the lazy ring-level reader model — whatever reader
+    capacity is configured — and delivered, under EVERY schedule of buffer lengths asking for more than the data, as
+    exactly the accepted bytes followed by `io.EOF`. -/
+theorem C06_roundtrip_lazy_reader_hashtable4 (c : W1.Cfg) (hc : W1.CfgOk c) (ps : List ByteArray) (cfgCap : Nat)
+    (hsz : match c.size with
+      | some sz => (W1.acceptedData c.size 0 ps).size = sz
+      | none => True)
+    (lens : List Nat) (hsum : (W1.acceptedData c.size 0 ps).size < lens.sum) :
+    ∃ o, (W1.run c HT.HT4 (W1.init c (HT.St.new c.w2.dictCap c.w2.bufSize)) (ps.map .write ++ [.close])).2 = some o ∧
+      ∃ l, newReader cfgCap o = .ok l ∧ lastStat (readSeq l lens) = .eof ∧
+        delivered (readSeq l lens) = W1.acceptedData c.size 0 ps := by
+  obtain ⟨_, o, ho, _, hst, hout, _, _, hopen⟩ :=
+    (W1.closes_I c hc HT.HT4 (HT.Synced c.w2) (W2.matcherInv' (HT.ht4_matcherInv c.w2)) _ (HT.synced_new c.w2) ps
+      (effCap cfgCap)).2 hsz
+  exact ⟨o, ho, lazy1_of_batch cfgCap o _ hst hout hopen lens hsum⟩
 
 end Props.C06
